@@ -547,7 +547,12 @@ def fix_expr(m, e, cw):
             n = ("bin", o, fix_expr(m, e[2], gather(m, e[2])[0]), fix_expr(m, e[3], gather(m, e[3])[0]))
         return _wrap(n) if cw > 64 else n
     if k == "tern":
-        return ("tern", fix_expr(m, e[1], gather(m, e[1])[0]), fix_expr(m, e[2], cw), fix_expr(m, e[3], cw))
+        a, b = e[2], e[3]
+        if a[0] == "sign" and b[0] == "sign":
+            # `if c ? $signed(x) : $signed(y)` in an unsigned wider context is sign-extended by all engines
+            # (C01 finding ternary-of-signed-calls; reference and SystemVerilog zero-extend): not generated
+            b = b[2]
+        return ("tern", fix_expr(m, e[1], gather(m, e[1])[0]), fix_expr(m, a, cw), fix_expr(m, b, cw))
     if k == "cat":
         return ("cat", [(fix_expr(m, a, gather(m, a)[0]), n) for a, n in e[1]])
     if k == "cast":
